@@ -41,6 +41,25 @@ BlockTab ==
    urlT  |-> << D("URL", <<"paib">>, "", FALSE, "", ""), D("Tags", <<"@g1">>, "", FALSE, "", ""),
                 D("GET", <<>>, "", FALSE, "", ""), D("RESP", <<"any">>, "", FALSE, "", "200"),
                 D("POST", <<>>, "", FALSE, "", ""), D("Tags", <<"@g_2">>, "", FALSE, "", ""), D("RESP", <<"any">>, "", FALSE, "", "200") >>, \* URL-level and method-level Tags
+   \* every HTTP method stand-alone with path parameters nobody else mentions and no Path directive
+   sAll  |-> << D("GET", <<"pmg">>, "", FALSE, "", ""), D("RESP", <<"any">>, "", FALSE, "", "200"),
+                D("POST", <<"pmp">>, "", FALSE, "", ""), D("RESP", <<"any">>, "", FALSE, "", "200"),
+                D("PUT", <<"pmu">>, "", FALSE, "", ""), D("RESP", <<"any">>, "", FALSE, "", "200"),
+                D("PATCH", <<"pmh">>, "", FALSE, "", ""), D("RESP", <<"any">>, "", FALSE, "", "200"),
+                D("DELETE", <<"pmd">>, "", FALSE, "", ""), D("RESP", <<"any">>, "", FALSE, "", "200") >>,
+   \* a path that repeats two different parameters (rejected; the message names the first repeated one)
+   dup2  |-> << D("GET", <<"pdup2">>, "", FALSE, "", ""), D("RESP", <<"any">>, "", FALSE, "", "200") >>,
+   dup3  |-> << D("URL", <<"pdup">>, "", FALSE, "", ""), D("Path", <<>>, "", FALSE, "pid", ""), D("GET", <<>>, "", FALSE, "", ""),
+                D("RESP", <<"any">>, "", FALSE, "", "200") >>,                               \* ... under a Path directive: reported on Path
+   \* a Description text directly followed by a line that is a bare 3-byte keyword (the response's body stands on the next line)
+   descR |-> << D("GET", <<"pdr">>, "", FALSE, "", ""), D("Description", <<>>, "", FALSE, "d1", ""),
+                D("RESP", <<>>, "", FALSE, "obj", "200"), D("PUT", <<"pdr">>, "", FALSE, "", ""), D("Description", <<>>, "", FALSE, "d2", ""),
+                D("RESP", <<"any">>, "", FALSE, "", "404") >>,
+   \* a macro that carries a Path, pasted under two resources (each paste is a new copy of the method and its Path)
+   macP  |-> << D("MACRO", <<"@mp">>, "", TRUE, "", ""), D("GET", <<>>, "", FALSE, "", ""), D("Path", <<>>, "", FALSE, "pid", ""),
+                D("RESP", <<"any">>, "", FALSE, "", "200"), CloseTok >>,
+   useMP |-> << D("URL", <<"pai">>, "", FALSE, "", ""), D("PASTE", <<"@mp">>, "", FALSE, "", ""),
+                D("URL", <<"pci">>, "", FALSE, "", ""), D("PASTE", <<"@mp">>, "", FALSE, "", "") >>,                 \* needs macP
    \* a URL-level Tags written after the methods: only an explicit '( )' on the last method lets it reach the URL
    urlTx |-> << D("URL", <<"pf">>, "", FALSE, "", ""), D("GET", <<>>, "", FALSE, "", ""), D("RESP", <<"any">>, "", FALSE, "", "200"),
                 D("POST", <<>>, "", TRUE, "", ""), D("RESP", <<"any">>, "", FALSE, "", "200"), CloseTok,
